@@ -625,7 +625,9 @@ func (o *c08Obs) After(w *wWorld, st *wStep) *kit.Viol {
 			for _, r := range mem.A.Snapshot().Subs {
 				if r.Topic == w.groups[0] && r.User == w.users[st.User].uid && r.DeletedAt == nil {
 					o.features["offline-set-two-fields"] = true
-					if want := `{"c":"` + st.Op.X[0] + `"}`; canonJSON(r.Private) != canonJSON([]byte(want)) || r.ModeWant.String() != st.Op.X[1] {
+					var priv map[string]any
+					json.Unmarshal(r.Private, &priv) // (an object is merged into what is there: only the key sent is demanded)
+					if priv["c"] != st.Op.X[0] || r.ModeWant.String() != st.Op.X[1] {
 						return kit.V("acknowledged-offline-set-not-stored", "%s was answered 200; the stored subscription has private %s and want %v", st.Req, canonJSON(r.Private), r.ModeWant)
 					}
 				}
